@@ -71,7 +71,7 @@ def read_all_rules():
     return [
         # function-local `static const` -> constant (dfcc would havoc the static)
         Rule(r'static const ssize_t read_size = ([^;]+);', r'enum { read_size = \1 };', count=1, regex=True),
-        Rule(r'vector<string> buffers;', 'vsv buffers; vsv_init(&buffers, read_size);', count=1, regex=True),
+        Rule(r'vector<string> buffers;', 'vsv buffers; vsv_init(&buffers);', count=1, regex=True),
         Rule(r'buffers\.emplace_back\(', 'vsv_emplace_back(&buffers, ', count=1, regex=True),
         Rule('buffers.back().data()', 'vsv_back_data(&buffers)', count=1),
         SYS('+'),
@@ -95,6 +95,105 @@ def loops_unit(ctx, src):
                rules=read_all_rules(), ret_zero='', nloops=2, loops={1: READ_ALL_LOOP1, 2: READ_ALL_LOOP2})
     u.function(src, CC, r'string read_all\(FILE\* f\)', new_header='void phosg_read_all_file(vstr* ret, C14_FILE* f)',
                rules=read_all_rules(), ret_zero='', nloops=2, loops={1: READ_ALL_LOOP1, 2: READ_ALL_LOOP2})
+    u.function(src, CC, r'string fgets\(FILE\* f\)', new_header='void phosg_fgets(vstr* ret, C14_FILE* f)', ret_zero='', nloops=1, loops={1: FGETS_LOOP},
+               rules=[Rule(r'deque<string> blocks;', 'vsv blocks; vsv_init(&blocks);', count=1, regex=True),
+                      Rule(r'string& block = blocks\.emplace_back\(', 'vsv_emplace_back(&blocks, ', count=1, regex=True),
+                      SYS('+'),
+                      Rule(r'\bblock\.(data|c_str)\(\)', 'vsv_back_data(&blocks)', count=2, regex=True),
+                      Rule('block.size()', 'vsv_back_size(&blocks)', count=1),
+                      Rule(r'\bblock\[([^\]]+)\]', r'vsv_back_at(&blocks, \1)', count=1, regex=True),
+                      Rule(r'\bblock\.resize\(', 'vsv_back_resize(&blocks, ', count=1, regex=True),
+                      Rule('blocks.pop_back();', 'vsv_pop_back(&blocks);', count=1),
+                      Rule('blocks.size()', 'vsv_size(&blocks)', count=1),
+                      Rule('return move(blocks.front());', '{ vsv_front_out(ret, &blocks); return; }', count=1),
+                      Rule('return join(blocks);', '{ vsv_concat_out(ret, &blocks); return; }', count=1)])
+    return u
+
+
+FGETS_LOOP = """
+__CPROVER_assigns(verif_exc, g_pos, g_eof_seen, g_err_seen, g_overrun, g_fg_buf, g_fg_len, g_cval, blocks.count, blocks.total, blocks.live, blocks.has_live, __CPROVER_object_whole(blocks.buf))
+__CPROVER_loop_invariant(verif_exc == 0 && g_overrun == 0 && g_err_seen == 0 && g_eof_seen == 0 && g_pos <= g_src_len && !(g_has_nl && g_pos == g_src_len))
+__CPROVER_loop_invariant(blocks.total == g_pos && blocks.count <= g_pos && VSV_INV(&blocks))
+__CPROVER_loop_invariant(g_vk < blocks.total ==> VSV_CONCAT(&blocks, g_vk) == g_sval)
+__CPROVER_decreases(g_src_len - g_pos)
+"""
+
+
+def fd_unit(ctx, src):
+    """scoped_fd: the C mirror is { int fd; } -- checked against the class text; constructors with member-initialiser lists
+    are emitted as `self->fd = <initialiser expression cut from the source>;` followed by the extracted body."""
+    from vf.lex import find_def
+    _, cbody, _, _ = find_def(src.text(HH), r'class scoped_fd', 'class')
+    i = cbody.rfind('private:')
+    members = [l.strip() for l in cbody[i + 8:].strip().rstrip('}').strip().split('\n') if l.strip()] if i >= 0 else None
+    if members != ['int fd;']:
+        raise ExtractionBreak('scoped_fd: data members changed: %r' % members)
+    u = Unit(ctx, 'scoped_fd')
+    u.raw('#include "contracts/C14_fd.h"\n')
+    OTHER = Rule(r'\bother\.fd\b', 'other->fd', count='+', regex=True)
+
+    def init_expr(sig):
+        e = u.snippet(src, CC, sig + r'\s*:\s*fd\(([^()]*)\)\s*\{', group=1)
+        return re.sub(r'\bother\.fd\b', 'other->fd', e)
+    u.function(src, CC, r'scoped_fd::scoped_fd\(\)\s*:\s*fd\([^()]*\)', new_header='void scoped_fd_ctor(scoped_fd* self)',
+               body_prefix=' self->fd = %s; ' % init_expr(r'scoped_fd::scoped_fd\(\)'))
+    u.function(src, CC, r'scoped_fd::scoped_fd\(int fd\)\s*:\s*fd\([^()]*\)', new_header='void scoped_fd_ctor_int(scoped_fd* self, int fd)',
+               body_prefix=' self->fd = %s; ' % init_expr(r'scoped_fd::scoped_fd\(int fd\)'))
+    u.function(src, CC, r'void scoped_fd::close\(\)', new_header='void scoped_fd_close(scoped_fd* self)', rules=[SYS(1)])
+    u.function(src, CC, r'scoped_fd::scoped_fd\(scoped_fd&& other\)\s*:\s*fd\([^()]*\)', new_header='void scoped_fd_move_ctor(scoped_fd* self, scoped_fd* other)',
+               body_prefix=' self->fd = %s; ' % init_expr(r'scoped_fd::scoped_fd\(scoped_fd&& other\)'), rules=[OTHER])
+    CLOSE = Rule('self->close();', 'scoped_fd_close(self);', count=1)
+    RET = Rule('return *this;', 'return self;', count=1)
+    u.function(src, CC, r'scoped_fd::~scoped_fd\(\)', new_header='void scoped_fd_dtor(scoped_fd* self)', rules=[CLOSE])
+    u.function(src, CC, r'scoped_fd& scoped_fd::operator=\(scoped_fd&& other\)', new_header='scoped_fd* scoped_fd_move_assign(scoped_fd* self, scoped_fd* other)',
+               rules=[CLOSE, OTHER, RET])
+    u.function(src, CC, r'scoped_fd& scoped_fd::operator=\(int other\)', new_header='scoped_fd* scoped_fd_assign_int(scoped_fd* self, int other)',
+               rules=[CLOSE, RET])
+    u.function(src, CC, r'scoped_fd::operator int\(\) const', new_header='int scoped_fd_to_int(const scoped_fd* self)')
+    u.function(src, CC, r'bool scoped_fd::is_open\(\)', new_header='bool scoped_fd_is_open(scoped_fd* self)')
+    return u
+
+
+def path_unit(ctx, src):
+    u = Unit(ctx, 'path')
+    u.raw('#include "stubs/C14_str.h"\n')
+    RF = Rule(r"filename\.rfind\(", 'c14_rfind(filename, ', count=1, regex=True)
+    u.function(src, CC, r'string basename\(const std::string& filename\)', new_header='void phosg_basename(vstr* ret, const vstr* filename)',
+               rules=[RF, Rule(r'return \((\w+) == string::npos\) \? filename : filename\.substr\(([^;,]+)\);',
+                               r'{ if (\1 == C14_NPOS) { c14_copy(ret, filename); } else { c14_substr(ret, filename, \2, C14_NPOS); } return; }', count=1, regex=True)])
+    u.function(src, CC, r'string dirname\(const std::string& filename\)', new_header='void phosg_dirname(vstr* ret, const vstr* filename)',
+               rules=[RF, Rule(r'return \((\w+) == string::npos\) \? "" : filename\.substr\(([^;,]+), ([^;,]+)\);',
+                               r'{ if (\1 == C14_NPOS) { vstr_clear(ret); } else { c14_substr(ret, filename, \2, \3); } return; }', count=1, regex=True)])
+    return u
+
+
+def poll_unit(ctx, src):
+    """Poll::add / remove / empty; iterators become indices into the pvec model; the comparison lambdas are extracted as
+    functions of their own (the search stubs assume "ordered by fd": that is what the lambdas must compute)."""
+    from vf.lex import find_def
+    _, cbody, _, _ = find_def(src.text(HH), r'class Poll', 'class')
+    i = cbody.rfind('private:')
+    members = [l.strip() for l in cbody[i + 8:].strip().rstrip('}').strip().split('\n') if l.strip()] if i >= 0 else None
+    if members != ['std::vector<struct pollfd> poll_fds;']:
+        raise ExtractionBreak('Poll: data members changed: %r' % members)
+    u = Unit(ctx, 'poll')
+    u.raw('#include "contracts/C14_poll.h"\n')
+    LAMBDA = r'auto pred = \[\]\(const struct pollfd& x, const struct pollfd& y\)'
+    common = [Rule(LAMBDA + r' \{.*?\};', '', count=1, regex=True),
+              Rule('struct pollfd pfd;', 'c14_pollfd pfd;', count=1),
+              Rule(r'auto (\w+) = (upper|lower)_bound\(self->poll_fds\.begin\(\),\s*self->poll_fds\.end\(\),\s*pfd,\s*pred\);',
+                   r'size_t \1 = pvec_\2_bound(&self->poll_fds, &pfd);', count=1, regex=True),
+              Rule('self->poll_fds.end()', 'pvec_end(&self->poll_fds)', count=1),
+              Rule(r'\b(insert_it|erase_it)->', r'self->poll_fds.data[\1].', count='+', regex=True)]
+    for nm, sig, hdr in (('add', r'void Poll::add\(int fd, short events\)', 'void Poll_add(Poll* self, int fd, short events)'),
+                         ('remove', r'void Poll::remove\(int fd, bool close_fd\)', 'void Poll_remove(Poll* self, int fd, bool close_fd)')):
+        u.block(src, CC, sig, LAMBDA, new_header='bool Poll_%s_pred(const c14_pollfd* x, const c14_pollfd* y)' % nm,
+                rules=[Rule(r'\b([xy])\.fd\b', r'\1->fd', count=2, regex=True)])
+        extra = ([Rule('self->poll_fds.insert(insert_it, pfd);', 'pvec_insert(&self->poll_fds, insert_it, &pfd);', count=1)] if nm == 'add' else
+                 [Rule('self->poll_fds.erase(erase_it);', 'pvec_erase(&self->poll_fds, erase_it);', count=1), SYS(1)])
+        u.function(src, CC, sig, new_header=hdr, rules=common + extra)
+    u.function(src, CC, r'bool Poll::empty\(\) const', new_header='bool Poll_empty(const Poll* self)',
+               rules=[Rule('self->poll_fds.empty()', 'pvec_empty(&self->poll_fds)', count=1)])
     return u
 
 
@@ -138,6 +237,53 @@ def plan(ctx):
     groups.append(Group(name='Filesystem.read_all(FILE*)', harness=HL, entry='h_read_all_file', function='read_all(FILE*)', enforce='phosg_read_all_file',
                         replace=['c14_fread'] + (['c14_ferror'] if 'c14_ferror(' in ul.text().split('phosg_read_all_file')[1] else []) + VS, loops=True, kind='loop-contract', timeout=300,
                         replay=Replay(driver='C14/fs.cc', mode='read_all_file', sources=ALL_LIB, small_define='VERIF_SMALL')))
+    groups.append(Group(name='Filesystem.fgets(FILE*)', harness=HL, entry='h_fgets', function='fgets(FILE*)', enforce='phosg_fgets',
+                        replace=['c14_fgets', 'c14_feof', 'c14_strlen', 'vsv_concat_out'], loops=True, kind='loop-contract', timeout=300,
+                        clause_note='the result is the whole ghost line (g_src_len bytes, with its newline if it has one), whatever its length relative to the 256-byte block',
+                        replay=Replay(driver='C14/fs.cc', mode='fgets_line', sources=ALL_LIB, small_define='VERIF_SMALL')))
+    uf = fd_unit(ctx, src)
+    uf.write()
+    ctx.functions_under_contract += uf.functions
+    HF = 'harness/C14/fd.c'
+    for fn, cxx, rep in [('ctor', 'scoped_fd::scoped_fd()', []), ('ctor_int', 'scoped_fd::scoped_fd(int)', []),
+                         ('move_ctor', 'scoped_fd::scoped_fd(scoped_fd&&)', []), ('close', 'scoped_fd::close', ['c14_close']),
+                         ('dtor', 'scoped_fd::~scoped_fd', ['c14_close']), ('move_assign', 'scoped_fd::operator=(scoped_fd&&)', ['c14_close']),
+                         ('assign_int', 'scoped_fd::operator=(int)', ['c14_close']), ('to_int', 'scoped_fd::operator int', []),
+                         ('is_open', 'scoped_fd::is_open', [])]:
+        groups.append(Group(name='scoped_fd.' + fn, harness=HF, entry='h_' + fn, function=cxx, enforce='scoped_fd_' + fn, replace=rep,
+                            clause_note='the descriptor held on entry is closed exactly once (ghost close counters), ownership moves, the moved-from object holds -1',
+                            replay=Replay(driver='C14/fs.cc', mode='scoped_fd', extra=[fn], sources=ALL_LIB)))
+    FDC = ['scoped_fd_ctor', 'scoped_fd_ctor_int', 'scoped_fd_move_ctor', 'scoped_fd_close', 'scoped_fd_dtor', 'scoped_fd_move_assign', 'scoped_fd_assign_int']
+    groups.append(Group(name='scoped_fd.lifetime[move]', harness=HF, entry='l_lifetime_move', function='scoped_fd (ctor, move ctor, move assignment, destructor)',
+                        replace=[f for f in FDC if f in ('scoped_fd_ctor_int', 'scoped_fd_move_ctor', 'scoped_fd_move_assign', 'scoped_fd_dtor')], kind='lemma', min_post=4))
+    groups.append(Group(name='scoped_fd.lifetime[assign,close]', harness=HF, entry='l_lifetime_assign_close', function='scoped_fd (ctor, operator=(int), close, destructor)',
+                        replace=[f for f in FDC if f in ('scoped_fd_ctor', 'scoped_fd_assign_int', 'scoped_fd_close', 'scoped_fd_dtor')], kind='lemma', min_post=4))
+    up = path_unit(ctx, src)
+    up.write()
+    ctx.functions_under_contract += up.functions
+    HP = 'harness/C14/path.c'
+    for fn in ('basename', 'dirname'):
+        groups.append(Group(name='Filesystem.' + fn, harness=HP, entry='h_' + fn, function=fn, enforce='phosg_' + fn, replace=['c14_rfind', 'vstr_assign'],
+                            clause_note='the part after / before the last slash (ghost g_ls), byte for byte (ghost index)',
+                            replay=Replay(driver='C14/fs.cc', mode='dirname_basename', sources=ALL_LIB)))
+    groups.append(Group(name='Filesystem.dirname+basename.recompose', harness=HP, entry='l_recompose', function='dirname / basename',
+                        replace=['phosg_dirname', 'phosg_basename'], kind='lemma', min_post=3,
+                        replay=Replay(driver='C14/fs.cc', mode='dirname_basename', sources=ALL_LIB)))
+    uq = poll_unit(ctx, src)
+    uq.write()
+    ctx.functions_under_contract += uq.functions
+    HQ = 'harness/C14/poll.c'
+    qtext = uq.text()
+    for fn, rep in (('add', ['pvec_insert']), ('remove', ['pvec_erase', 'c14_close'])):
+        body = qtext.split('void Poll_%s(' % fn)[1].split('\nvoid ')[0].split('\nbool ')[0]
+        rep = rep + [b for b in ('pvec_upper_bound', 'pvec_lower_bound') if b + '(' in body]
+        groups.append(Group(name='Poll.' + fn, harness=HQ, entry='h_' + fn, function='Poll::' + fn, enforce='Poll_' + fn, replace=rep,
+                            clause_note='map semantics at the key: present exactly once with the new events / absent; size changes by one only when the key was '
+                                        'absent / present; every other entry kept in order (ghost value idiom)',
+                            stage1=60, timeout=300, replay=Replay(driver='C14/fs.cc', mode='poll_ops', extra=[fn], sources=ALL_LIB, small_define='VERIF_SMALL')))
+    groups.append(Group(name='Poll.empty', harness=HQ, entry='h_empty', function='Poll::empty', enforce='Poll_empty'))
+    groups.append(Group(name='Poll.add.pred', harness=HQ, entry='h_add_pred', function='Poll::add (comparison lambda)', enforce='Poll_add_pred'))
+    groups.append(Group(name='Poll.remove.pred', harness=HQ, entry='h_remove_pred', function='Poll::remove (comparison lambda)', enforce='Poll_remove_pred'))
     return groups
 
 
